@@ -16,6 +16,7 @@ import TemplVerif.Drive.C12
 import TemplVerif.Drive.C16
 import TemplVerif.Drive.C14
 import TemplVerif.Drive.C15
+import TemplVerif.Drive.C02
 import Std.Data.HashMap
 open TemplVerif TemplVerif.Drive
 
@@ -36,6 +37,7 @@ def dispatch (ws : List String) : Verdict :=
   | "C16" :: rest => C16.handle rest
   | "C14" :: rest => C14.handle rest
   | "C15" :: rest => C15.handle rest
+  | "C02" :: rest => C02.handle rest
   | "C06" :: rest => C0607.handleC06 rest
   | "C07" :: rest => C0607.handleC07 rest
   | "C08" :: rest => C0809.handleC08 rest
